@@ -147,6 +147,7 @@ pub struct WalkOpts {
     pub len: usize,
     pub light: bool,
     pub split: bool, // overlay: distribute the constructed state over the layers
+    pub lower_only: bool, // overlay: put the whole constructed state into the lower layers (upper starts empty)
     pub max_events: u64,
 }
 
@@ -158,7 +159,7 @@ fn slug(s: &str) -> String {
 /// union is `s`: every entry goes to one random layer (with its ancestors as directories), directories
 /// may additionally exist in other layers, and files in a lower layer may be shadowed by the upper
 /// copy with different bytes.  Pure data shuffling; TLC checks Merge(layers) = observation at init.
-fn split_state(lts: &Lts, s: &Snap, n: usize, rng: &mut StdRng) -> Vec<Option<Snap>> {
+fn split_state(lts: &Lts, s: &Snap, n: usize, rng: &mut StdRng, lower_only: bool) -> Vec<Option<Snap>> {
     let u = &lts.universe;
     let absent = vec![0i64];
     let mut layers: Vec<Snap> = (0..n).map(|_| vec![absent.clone(); u.len()]).collect();
@@ -173,14 +174,14 @@ fn split_state(lts: &Lts, s: &Snap, n: usize, rng: &mut StdRng) -> Vec<Option<Sn
         if s[i][0] == 0 {
             continue;
         }
-        let home = rng.gen_range(0..n);
+        let home = if lower_only && n > 1 { rng.gen_range(1..n) } else { rng.gen_range(0..n) };
         // a lower-layer ancestor must not be shadowed by an upper FILE: ancestors of a present entry are
         // directories of s in every layer where we put them, so the union keeps the type
         ensure_parents(&mut layers[home], p);
         layers[home][i] = s[i].clone();
         if s[i][0] == 1 {
             for l in 0..n {
-                if l != home && rng.gen_bool(0.3) {
+                if l != home && (!lower_only || l > 0) && rng.gen_bool(0.3) {
                     ensure_parents(&mut layers[l], p);
                     layers[l][i] = vec![1];
                 }
@@ -207,7 +208,7 @@ fn new_session(lts: &Lts, o: &WalkOpts, s: &Snap, rng: &mut StdRng) -> Session {
     sess.light = o.light;
     let nl = sess.w.layers.len();
     if nl > 1 && o.split {
-        let parts = split_state(lts, s, nl, rng);
+        let parts = split_state(lts, s, nl, rng, o.lower_only);
         sess.populate_layers(&parts);
     } else {
         sess.populate_state(s);
@@ -404,6 +405,113 @@ pub fn run_walk(lts: Arc<Lts>, o: Arc<WalkOpts>) -> Value {
                                 break;
                             }
                             cur = if e.regime == "spec" { e.to } else { now.unwrap() };
+                        }
+                    }
+                }
+                "cycles" => {
+                    // C10 bias: remove something that lives in a lower layer (file / empty directory / whole subtree),
+                    // do unrelated things, re-create it (possibly with another type), three cycles per walk
+                    for wi in 0..o.walks {
+                        if wi % o.threads != t {
+                            continue;
+                        }
+                        let nonempty: Vec<usize> = (0..lts.states.len()).filter(|&i| lts.states[i].iter().any(|n| n[0] != 0)).collect();
+                        let si = *nonempty.choose(&mut rng).unwrap();
+                        let s = lts.states[si].clone();
+                        let mut sess = new_session(&lts, &o, &s, &mut rng);
+                        let init = sess.init_event();
+                        let ok = snap_of(&init["obs"]) == s;
+                        out.begin(&init);
+                        if !ok {
+                            fast.push(json!({"kind":"init","state":s,"cfg":o.cfg}));
+                            stats.fast_disagree.fetch_add(1, Ordering::Relaxed);
+                            continue;
+                        }
+                        let mut cur = si;
+                        let mut alive = true;
+                        // run one edge selected by (op, p[, c]); returns false when the walk must stop
+                        let mut run = |cur: &mut usize, sess: &mut Session, out: &mut TraceOut, fast: &mut Vec<Value>, op: &str, p: &Vec<String>, c: Option<&Vec<i64>>| -> bool {
+                            let e = match lts.edges[*cur].iter().find(|e| e.op.op == op && &e.op.p == p && c.map(|c| &e.op.c == c).unwrap_or(true)) {
+                                Some(e) => e,
+                                None => return true, // not an edge of the bounded model from here (contents bound): skip
+                            };
+                            let ev = sess.step(&e.op);
+                            out.put(&ev);
+                            stats.edges_run.fetch_add(1, Ordering::Relaxed);
+                            stats.distinct.lock().unwrap().insert((*cur, format!("{}{:?}{:?}{:?}{}", e.op.op, e.op.p, e.op.q, e.op.c, e.op.f)));
+                            let (ok, now) = fast_check(&lts, e, &ev, &sup);
+                            if !ok {
+                                fast.push(json!({"kind":"cycle","op":e.op.to_json(),"got":ev["res"]["c"],"allowed":e.allowed}));
+                                stats.fast_disagree.fetch_add(1, Ordering::Relaxed);
+                                return false;
+                            }
+                            *cur = if e.regime == "spec" { e.to } else { now.unwrap() };
+                            true
+                        };
+                        let uni = lts.universe.clone();
+                        for _cycle in 0..3 {
+                            if !alive {
+                                break;
+                            }
+                            let present: Vec<usize> = (0..uni.len()).filter(|&i| lts.states[cur][i][0] != 0).collect();
+                            if present.is_empty() {
+                                break;
+                            }
+                            let pi = *present.choose(&mut rng).unwrap();
+                            let p = uni[pi].clone();
+                            let isdir = lts.states[cur][pi][0] == 1;
+                            // removal
+                            if !isdir {
+                                alive = run(&mut cur, &mut sess, &mut out, &mut fast, "remove_file", &p, None);
+                            } else if rng.gen_bool(0.5) {
+                                alive = run(&mut cur, &mut sess, &mut out, &mut fast, "remove_dir_all", &p, None);
+                            } else {
+                                // children first (deepest first), then the directory itself
+                                let mut kids: Vec<usize> = (0..uni.len()).filter(|&i| uni[i].len() > p.len() && uni[i][..p.len()] == p[..] && lts.states[cur][i][0] != 0).collect();
+                                kids.sort_by_key(|&i| std::cmp::Reverse(uni[i].len()));
+                                for k in kids {
+                                    if !alive {
+                                        break;
+                                    }
+                                    let op = if lts.states[cur][k][0] == 1 { "remove_dir" } else { "remove_file" };
+                                    alive = run(&mut cur, &mut sess, &mut out, &mut fast, op, &uni[k], None);
+                                }
+                                if alive {
+                                    alive = run(&mut cur, &mut sess, &mut out, &mut fast, "remove_dir", &p, None);
+                                }
+                            }
+                            // unrelated operations
+                            for _ in 0..rng.gen_range(0..4) {
+                                if !alive {
+                                    break;
+                                }
+                                let cands: Vec<&Edge> = lts.edges[cur].iter().filter(|e| !(e.op.p.len() >= p.len() && e.op.p[..p.len()] == p[..]) && !(p.len() >= e.op.p.len() && p[..e.op.p.len()] == e.op.p[..]) && !e.op.has_dest()).collect();
+                                if let Some(e) = cands.choose(&mut rng) {
+                                    let (op, pp, c) = (e.op.op.clone(), e.op.p.clone(), e.op.c.clone());
+                                    alive = run(&mut cur, &mut sess, &mut out, &mut fast, &op, &pp, Some(&c));
+                                }
+                            }
+                            // re-creation, possibly with another type, then populate below it
+                            if alive {
+                                let choice = rng.gen_range(0..3);
+                                if choice == 0 {
+                                    let c: Vec<i64> = if rng.gen_bool(0.5) { vec![1] } else { vec![] };
+                                    alive = run(&mut cur, &mut sess, &mut out, &mut fast, "create_file", &p, Some(&c));
+                                } else {
+                                    let op = if choice == 1 { "create_dir" } else { "create_dir_all" };
+                                    alive = run(&mut cur, &mut sess, &mut out, &mut fast, op, &p, None);
+                                    let kids: Vec<usize> = (0..uni.len()).filter(|&i| uni[i].len() == p.len() + 1 && uni[i][..p.len()] == p[..]).collect();
+                                    for k in kids {
+                                        if alive && rng.gen_bool(0.5) {
+                                            if rng.gen_bool(0.5) {
+                                                alive = run(&mut cur, &mut sess, &mut out, &mut fast, "create_dir", &uni[k], None);
+                                            } else {
+                                                alive = run(&mut cur, &mut sess, &mut out, &mut fast, "create_file", &uni[k], Some(&vec![1]));
+                                            }
+                                        }
+                                    }
+                                }
+                            }
                         }
                     }
                 }
